@@ -6,6 +6,7 @@ package sharding
 import (
 	"crypto/sha256"
 	"encoding/binary"
+	"encoding/json"
 	"fmt"
 	"sort"
 	"strings"
@@ -60,12 +61,28 @@ func verifSHBShardIDs(nbShards uint32) []uint32 {
 // verifSHBKeyGen hands out unique public keys (uniqueness of validator keys is an invariant of the
 // staking contract; the coordinator's maps rely on it).
 type verifSHBKeyGen struct {
-	next int
-	long bool
+	next   int
+	long   bool
+	ragged bool // keys of different lengths that share prefixes (wider than production, where keys are 96 bytes)
+}
+
+// verifSHBDrawKeyGen draws the kind of keys of a case: 96-byte keys (1/4), ragged keys (1/4), 8-byte keys (1/2).
+func verifSHBDrawKeyGen(rt *rapid.T) *verifSHBKeyGen {
+	kind := rapid.IntRange(0, 3).Draw(rt, "longKeys")
+	return &verifSHBKeyGen{long: kind == 0, ragged: kind == 1}
 }
 
 func (g *verifSHBKeyGen) New() string {
 	g.next++
+	if g.ragged {
+		// "k" + the counter in base 3 with the digits a, b, c and no padding: kb, kc, kba, kbb, ... - unique, 2 to 7
+		// bytes for the first 700 keys, every key a prefix of later ones
+		digits := []byte{}
+		for n := g.next; n > 0; n /= 3 {
+			digits = append([]byte{byte('a' + n%3)}, digits...)
+		}
+		return "k" + string(digits)
+	}
 	if g.long {
 		// 96-byte keys like BLS public keys
 		h := sha256.Sum256([]byte(fmt.Sprintf("verif-pk-%d", g.next)))
@@ -123,6 +140,9 @@ type verifSHBCoordCfg struct {
 	WaitingListFix uint32
 	Chance         *verifSHBChance // nil = plain coordinator
 	BootStorer     storage.Storer  // nil = a fresh in-memory storer
+	// if set, these validator maps are handed to the constructor as they are (instead of maps built from Eligible / Waiting)
+	EligibleBuilt map[uint32][]Validator
+	WaitingBuilt  map[uint32][]Validator
 }
 
 // verifSHBCoord bundles the base coordinator and (if any) its rater wrapper.
@@ -148,6 +168,10 @@ func verifSHBNewCoord(cfg verifSHBCoordCfg) (*verifSHBCoord, error) {
 	args.StartEpoch = cfg.Epoch
 	args.EligibleNodes = verifSHBBuildMap(cfg.Eligible)
 	args.WaitingNodes = verifSHBBuildMap(cfg.Waiting)
+	if cfg.EligibleBuilt != nil {
+		args.EligibleNodes = cfg.EligibleBuilt
+		args.WaitingNodes = cfg.WaitingBuilt
+	}
 	args.SelfPublicKey = []byte(cfg.SelfPK)
 	args.Marshalizer = &marshal.GogoProtoMarshalizer{}
 	args.Hasher = cfg.Hasher
@@ -602,4 +626,35 @@ func verifSHBReadLeaving(nc NodesCoordinator, epoch uint32) (map[uint32][]string
 		}
 	}
 	return leaving, true
+}
+
+// verifSHBFromRegistry rebuilds the validator maps of one epoch the way factory.CreateNodesCoordinator does for a
+// node that bootstraps from an epoch start (bootstrapParameters.NodesConfig() != nil): the registry another node
+// exports (NodesCoordinatorToRegistry; optionally through its JSON form, as saved by saveState and read back by the
+// storage bootstrap), EpochsConfig[epoch], SerializableValidatorsToValidators for the eligible and waiting lists.
+func verifSHBFromRegistry(src *verifSHBCoord, epoch uint32, viaJSON bool) (eligible, waiting map[uint32][]Validator, err error) {
+	registry := src.Base.NodesCoordinatorToRegistry()
+	if viaJSON {
+		buf, errM := json.Marshal(registry)
+		if errM != nil {
+			return nil, nil, errM
+		}
+		registry = &NodesCoordinatorRegistry{}
+		if errM = json.Unmarshal(buf, registry); errM != nil {
+			return nil, nil, errM
+		}
+	}
+	epochCfg, ok := registry.EpochsConfig[fmt.Sprintf("%d", epoch)]
+	if !ok {
+		return nil, nil, fmt.Errorf("registry has no epoch %d", epoch)
+	}
+	eligible, err = SerializableValidatorsToValidators(epochCfg.EligibleValidators)
+	if err != nil {
+		return nil, nil, err
+	}
+	waiting, err = SerializableValidatorsToValidators(epochCfg.WaitingValidators)
+	if err != nil {
+		return nil, nil, err
+	}
+	return eligible, waiting, nil
 }
